@@ -48,3 +48,10 @@ Example C01_example :
              (mkS None true RequireAndVerifyClientCert [3; 2] 0 0 true true)
   = Some (mkO ECC_CBC 2 2 true).
 Proof. vm_compute. reflexivity. Qed.
+
+(* the numbers and tables this property's model uses are the ones the sources declare: Model/GenConsts.v is
+   regenerated from the repository under test (tools/consts) before every build *)
+From V Require Import Model.GenConsts Proofs.TieSuites.
+Theorem C01_suite_table_is_the_sources : TieSuites.suites_tie.
+Proof. exact TieSuites.suites_tie_holds. Qed.
+Print Assumptions C01_suite_table_is_the_sources.
